@@ -1,262 +1,12 @@
 /-
-  MdModel.Once — small-step interleaving model of
-    * `CachedAsyncResult::get`            (breakpad-symbols/src/lib.rs:702-713): an async mutex
-      (`futures_util::lock::Mutex`) is taken, and HELD ACROSS the supplier call when the slot is empty;
-    * `Symbolizer::get_symbols`           (breakpad-symbols/src/lib.rs:862-902):
-      `symbols.cache_default(module_key(module))` (insert-only per-key slot, `cachemap2`), and the
-      `pending_stats.symbols_requested / symbols_processed` bookkeeping around the supplier call;
-    * `futures_util::lock::Mutex` 0.3.31  (src/lock/mutex.rs): `poll` acquires iff the lock is free; a
-      failed poll registers (or re-registers) the task in the waiter slab; `unlock` wakes the FIRST
-      slab entry if it is still `Waiting` (and marks it `Woken`); an acquiring poll removes its entry.
-
-  A *task* runs a program: a list of module keys it looks up one after another
-  (`fill_symbol`/`walk_frame` → `get_symbols`). One `poll` of a task runs it until it has to
-  return `Pending` (lock not free, or the supplier suspends) or until the program ends — so a single
-  poll may complete several lookups. `poll t` is the only transition; a schedule is any list of
-  task ids (polls of tasks that cannot progress — spurious polls — are allowed, as `join_all` does).
-  The supplier is a parameter: for every key the number of times it returns `Pending` before
-  answering, and its outcome.
-
-  Waiter slab abstraction: for one key, insertions into the slab only happen while the lock is held
-  across a suspension (slot `held`), removals only afterwards (slot `done`), so slab order =
-  registration order and the slab is modelled by a list (first = lowest slab index).
-  Cancellation (dropping a task) is excluded by the property and not modelled.
+  MdModel.Once — line protocol of engine `once` (C12). The machines live in
+    MdModel.OnceCore  base interleaving machine (CachedAsyncResult::get + get_symbols + futures Mutex)
+    MdModel.OnceG     the same machine over programs whose continuation depends on the observed result
+    MdModel.OnceReq   module identity / module_key, providers, request kinds, slots, outcomes, stats
 -/
-import MdModel.Prelude
+import MdModel.OnceReq
 namespace MdModel.Once
 open MdModel
-
-/-- outcome of `SymbolSupplier::locate_symbols` as far as the cache is concerned -/
-inductive Res where
-  | ok | notFound | parseError
-  deriving DecidableEq, Repr, Inhabited
-
-/-- supplier behaviour for one key: `delay` × `Pending`, then `res` -/
-structure Sup where
-  delay : Nat
-  res : Res
-  deriving Repr, Inhabited
-
-/-- a configuration: one program (list of keys) per task, and the supplier table -/
-structure Cfg where
-  progs : List (List Nat)
-  sup : Nat → Sup
-
-def Cfg.prog (cfg : Cfg) (t : Nat) : List Nat := cfg.progs.getD t []
-def Cfg.ntasks (cfg : Cfg) : Nat := cfg.progs.length
-def Cfg.outcome (cfg : Cfg) (k : Nat) : Res := (cfg.sup k).res
-
-/-- per-key slot = (`FutMutex` state, `Option<Arc<Result>>` value) between polls:
-    `empty`: unlocked, value `None`; `held t`: locked by `t` which is inside the supplier call,
-    value `None`; `done r`: unlocked, value `Some(r)`. -/
-inductive Slot where
-  | empty | held (t : Nat) | done (r : Res)
-  deriving DecidableEq, Repr, Inhabited
-
-/-- control state of a task between polls -/
-inductive Ctl where
-  | ready                      -- not polled yet / between two lookups during a poll
-  | waiting (k : Nat)          -- `MutexLockFuture` for key k returned `Pending` (registered waiter)
-  | inSup (k : Nat) (n : Nat)  -- holds the lock of k, supplier will return `Pending` n more times
-  | fin                        -- program finished (the future returned `Ready`)
-  deriving DecidableEq, Repr, Inhabited
-
-structure Task where
-  ctl : Ctl
-  /-- keys still to look up after the current one -/
-  rest : List Nat
-  /-- the task's waker has fired since its last poll (an executor that only polls woken tasks
-      would poll it) -/
-  woken : Bool
-  deriving Repr, Inhabited
-
-inductive Event where
-  | call (k : Nat)               -- `locate_symbols` started for key k
-  | ret (k : Nat)                -- `locate_symbols` returned for key k
-  | seen (t k : Nat) (r : Res)   -- task t's lookup of key k finished, observing r
-  deriving DecidableEq, Repr
-
-structure State where
-  task : Nat → Task
-  slot : Nat → Slot
-  /-- waiter slab of the key's mutex, in slab order; `true` = entry is `Waiter::Woken` -/
-  waiters : Nat → List (Nat × Bool)
-  requested : Nat
-  processed : Nat
-  log : List Event
-
-def upd {α : Type} (f : Nat → α) (i : Nat) (v : α) : Nat → α := fun j => if j = i then v else f j
-
-def init (cfg : Cfg) : State where
-  task := fun t => if t < cfg.ntasks then ⟨.ready, cfg.prog t, true⟩ else ⟨.fin, [], false⟩
-  slot := fun _ => .empty
-  waiters := fun _ => []
-  requested := 0
-  processed := 0
-  log := []
-
-def setCtl (s : State) (t : Nat) (c : Ctl) (r : List Nat) : State :=
-  { s with task := upd s.task t { ctl := c, rest := r, woken := (s.task t).woken } }
-
-def setWoken (s : State) (t : Nat) (b : Bool) : State :=
-  { s with task := upd s.task t { ctl := (s.task t).ctl, rest := (s.task t).rest, woken := b } }
-
-def emit (s : State) (e : Event) : State := { s with log := s.log ++ [e] }
-
-def setSlot (s : State) (k : Nat) (v : Slot) : State := { s with slot := upd s.slot k v }
-
-def setWaiters (s : State) (k : Nat) (ws : List (Nat × Bool)) : State :=
-  { s with waiters := upd s.waiters k ws }
-
-/-- a failed `MutexLockFuture::poll`: first time → `waiters.insert(Waiting)`, later →
-    `waiters[key].register(waker)` which turns a `Woken` entry back into `Waiting` -/
-def register (ws : List (Nat × Bool)) (t : Nat) : List (Nat × Bool) :=
-  if ws.any (fun e => e.1 == t) then ws.map (fun e => if e.1 == t then (t, false) else e)
-  else ws ++ [(t, false)]
-
-/-- `remove_waker(wait_key, false)` of an acquiring poll (nothing to remove for a fresh future) -/
-def deregister (ws : List (Nat × Bool)) (t : Nat) : List (Nat × Bool) :=
-  ws.filter (fun e => e.1 != t)
-
-/-- `Mutex::unlock`: the first slab entry is woken if it is still `Waiting` -/
-def unlock (s : State) (k : Nat) : State :=
-  match s.waiters k with
-  | (u, false) :: ws => setWoken (setWaiters s k ((u, true) :: ws)) u true
-  | _ => s
-
-/-- the supplier call of task `t` for key `k` returns: `symbols_processed += 1`, the slot value is
-    set, the guard is dropped, the task observes the outcome and goes on with `r` -/
-def complete (cfg : Cfg) (t k : Nat) (r : List Nat) (s : State) : State :=
-  let res := cfg.outcome k
-  let s := emit { s with processed := s.processed + 1 } (.ret k)
-  let s := setSlot s k (.done res)
-  -- (the guard is dropped before the task records what it saw; the two touch disjoint parts of
-  --  the state, the model applies `unlock` last)
-  unlock (setCtl (emit s (.seen t k res)) t .ready r) k
-
-/-- task `t` polls its lock future for key `k` (fresh, or already registered); `r` is its program
-    after this lookup. Returns the new state and whether the lookup completed (the poll goes on). -/
-def lookup (cfg : Cfg) (t k : Nat) (r : List Nat) (s : State) : State × Bool :=
-  match s.slot k with
-  | .held _ =>
-    (setCtl (setWaiters s k (register (s.waiters k) t)) t (.waiting k) r, false)
-  | .done res =>
-    let s := setWaiters s k (deregister (s.waiters k) t)
-    (unlock (setCtl (emit s (.seen t k res)) t .ready r) k, true)
-  | .empty =>
-    let s := setWaiters s k (deregister (s.waiters k) t)
-    let s := setSlot (emit { s with requested := s.requested + 1 } (.call k)) k (.held t)
-    match (cfg.sup k).delay with
-    | 0 => (complete cfg t k r (setCtl s t (.inSup k 0) r), true)
-    | n + 1 => (setWoken (setCtl s t (.inSup k n) r) t true, false)
-
-/-- the rest of a poll of task `t`, which is `ready` with program `ks` -/
-def runReady (cfg : Cfg) (t : Nat) : List Nat → State → State
-  | [], s => setCtl s t .fin []
-  | k :: r, s =>
-    match lookup cfg t k r s with
-    | (s', true) => runReady cfg t r s'
-    | (s', false) => s'
-
-/-- THE transition: the executor polls task `t` (its wake flag is consumed first). Polling a
-    finished task (or an id that is no task) is a no-op: executors never do it. -/
-def poll (cfg : Cfg) (t : Nat) (s : State) : State :=
-  let T := s.task t
-  match T.ctl with
-  | .fin => s
-  | .ready => runReady cfg t T.rest (setWoken s t false)
-  | .waiting k =>
-    match lookup cfg t k T.rest (setWoken s t false) with
-    | (s', true) => runReady cfg t T.rest s'
-    | (s', false) => s'
-  | .inSup k (n + 1) => setWoken (setCtl s t (.inSup k n) T.rest) t true
-  | .inSup k 0 => runReady cfg t T.rest (complete cfg t k T.rest (setWoken s t false))
-
-/-- run a schedule -/
-def exec (cfg : Cfg) : List Nat → State → State
-  | [], s => s
-  | t :: ts, s => exec cfg ts (poll cfg t s)
-
-def isFin (s : State) (t : Nat) : Bool := (s.task t).ctl == .fin
-
-def allFin (cfg : Cfg) (s : State) : Bool := (List.range cfg.ntasks).all (isFin s)
-
-/-! ### progress measure -/
-
-def cost (cfg : Cfg) (ks : List Nat) : Nat := (ks.map fun k => (cfg.sup k).delay + 3).sum
-
-def taskMeasure (cfg : Cfg) (T : Task) : Nat :=
-  match T.ctl with
-  | .ready => cost cfg T.rest + 1
-  | .waiting k => (cfg.sup k).delay + 3 + cost cfg T.rest
-  | .inSup _ n => n + 2 + cost cfg T.rest
-  | .fin => 0
-
-def measure (cfg : Cfg) (s : State) : Nat :=
-  ((List.range cfg.ntasks).map fun t => taskMeasure cfg (s.task t)).sum
-
-/-! ### observations -/
-
-def seenBy (t : Nat) (log : List Event) : List (Nat × Res) :=
-  log.filterMap fun e => match e with
-    | .seen t' k r => if t' = t then some (k, r) else none
-    | _ => none
-
-def callCount (k : Nat) (log : List Event) : Nat := log.count (.call k)
-
-/-- remove duplicates (keeps the last occurrence) -/
-def dedup : List Nat → List Nat
-  | [] => []
-  | a :: l => if a ∈ dedup l then dedup l else a :: dedup l
-
-/-- all keys mentioned by the programs, without duplicates -/
-def allKeys (cfg : Cfg) : List Nat := dedup cfg.progs.flatten
-
-def Slot.isDone : Slot → Bool
-  | .done _ => true
-  | _ => false
-
-def Slot.nonEmpty : Slot → Bool
-  | .empty => false
-  | _ => true
-
-/-- what a task still has to look up, including the lookup it is in the middle of -/
-def todo (T : Task) : List Nat :=
-  match T.ctl with
-  | .ready => T.rest
-  | .waiting k => k :: T.rest
-  | .inSup k _ => k :: T.rest
-  | .fin => []
-
-/-- the answer every lookup of key `k` must see: a function of the supplier table only -/
-def expected (cfg : Cfg) (k : Nat) : Nat × Res := (k, cfg.outcome k)
-
-/-- the keys task `t` has begun to look up: those it has an answer for, and the one it is in
-    the middle of -/
-def begun (s : State) (t : Nat) : List Nat :=
-  (seenBy t s.log).map Prod.fst ++
-    (match (s.task t).ctl with
-     | .waiting k => [k]
-     | .inSup k _ => [k]
-     | _ => [])
-
-/-- distinct keys some task has begun to look up -/
-def startedKeys (cfg : Cfg) (s : State) : List Nat :=
-  (allKeys cfg).filter fun k => (List.range cfg.ntasks).any fun t => (begun s t).contains k
-
-/-! ### executors used by the tie -/
-
-/-- tasks an executor that respects wakers would consider: woken and unfinished -/
-def runnable (cfg : Cfg) (s : State) : List Nat :=
-  (List.range cfg.ntasks).filter fun t => (s.task t).woken && !isFin s t
-
-/-- one round of round-robin over all tasks -/
-def roundRobin (cfg : Cfg) (s : State) : State := exec cfg (List.range cfg.ntasks) s
-
-/-- completion phase: round-robin rounds (`fuel` of them) -/
-def finish (cfg : Cfg) : Nat → State → State
-  | 0, s => s
-  | f + 1, s => if allFin cfg s then s else finish cfg f (roundRobin cfg s)
 
 /-! ### line protocol
   `once run x:<a|w|j> tasks:<k,k,..;k,..;..> sup:<k=delay:res,..> sched:<n,n,..|->`
@@ -353,7 +103,7 @@ def traceW (cfg : Cfg) : List Nat → State → List String → State × List St
       let s' := poll cfg t s
       traceW cfg cs s' (pollEntry cfg t s s' :: acc)
 
-def handle (_engine : String) (args : List String) : String :=
+def handleRun (args : List String) : String :=
   match args with
   | ["run", x, tasks, sup, sched] =>
     match x.dropPrefix? "x:", tasks.dropPrefix? "tasks:", sup.dropPrefix? "sup:", sched.dropPrefix? "sched:" with
@@ -377,6 +127,349 @@ def handle (_engine : String) (args : List String) : String :=
         | _ => "bad-op"
       | _, _, _ => "bad-op"
     | _, _, _, _ => "bad-op"
+  | _ => "bad-op"
+
+
+/-! ### line protocol of the request-level machine
+  `once req x:<a|w|j|m> mods:<mod;mod;..> provs:<u..|U|c|-> tasks:<req,req;..> sym:<p.k=d:res,..|-> file:<p.k.fk=d:res,..|-> sched:<..>`
+    mod    `<cf>.<ci>.<df>.<di>`: cf = `a` (no code file) | `e` (empty string) | `<dir>_<leaf>`;
+           ci, df, di = `n` (None) | number
+    provs  one letter per provider: `u` its supplier does not cache files, `c` it does
+           (`U`: one provider, used WITHOUT a MultiSymbolProvider around it; same model)
+    req    `f<m>` fill_symbol, `w<m>` walk_frame, `g<fk>_<m>` get_file_path(kind fk) on module index m
+    sym    locate_symbols of provider p for module KEY k (= index of the first module with that key):
+           `ok` symbols with CFI at the walked address, `on` symbols without, `nf`, `pe`
+    file   locate_file of provider p for key k and kind fk: `ok` | `nf`
+    x:m    as x:j, on a multi-thread runtime (only the final summary is comparable)
+  per poll `<t>[<events>|<answers>]<req>/<proc>,..m<req>/<proc>[S<p>:<stats>..]w<bits>f<bits>` (one req/proc
+  pair per provider, then MultiSymbolProvider::pending_stats, then the statistics map of every provider
+  whose map changed during the poll), then
+  ` final fin= pend= m= calls: fcalls: outs: stats: mstats:`.
+-/
+
+def parseOptNat (s : String) : Option (Option Nat) :=
+  if s == "n" then some none else (optNat s).map some
+
+def parseCodeFile (s : String) : Option CodeFile :=
+  if s == "a" then some .absent else if s == "e" then some .empty else
+  match s.splitOn "_" with
+  | [d, l] => match optNat d, optNat l with
+    | some d, some l => some (.path d l)
+    | _, _ => none
+  | _ => none
+
+def parseMod (s : String) : Option ModId :=
+  match s.splitOn "." with
+  | [cf, ci, df, di] =>
+    match parseCodeFile cf, parseOptNat ci, parseOptNat df, parseOptNat di with
+    | some cf, some ci, some df, some di => some ⟨cf, ci, df, di⟩
+    | _, _, _, _ => none
+  | _ => none
+
+def parseReq (s : String) : Option Req :=
+  match s.toList with
+  | 'f' :: r => (optNat (String.ofList r)).map fun m => ⟨.fill, m⟩
+  | 'w' :: r => (optNat (String.ofList r)).map fun m => ⟨.walk, m⟩
+  | 'g' :: r =>
+    match (String.ofList r).splitOn "_" with
+    | [fk, m] => match optNat fk, optNat m with
+      | some fk, some m => if fk < 3 then some ⟨.file fk, m⟩ else none
+      | _, _ => none
+    | _ => none
+  | _ => none
+
+def parseReqs (s : String) : Option (List (List Req)) :=
+  allSome ((s.splitOn ";").map fun p =>
+    if p == "-" then some [] else allSome ((p.splitOn ",").map parseReq))
+
+/-- `p.k=d:res` → ((p, k), delay, res, cfi) -/
+def parseSymTbl (s : String) : Option (List ((Nat × Nat) × Sup × Bool)) :=
+  if s == "-" then some [] else
+  allSome ((s.splitOn ",").map fun e =>
+    match e.splitOn "=" with
+    | [pk, v] =>
+      match pk.splitOn ".", v.splitOn ":" with
+      | [p, k], [d, r] =>
+        let res : Option (Res × Bool) :=
+          match r with
+          | "ok" => some (.ok, true) | "on" => some (.ok, false)
+          | "nf" => some (.notFound, false) | "pe" => some (.parseError, false) | _ => none
+        match optNat p, optNat k, optNat d, res with
+        | some p, some k, some d, some (r, c) => some ((p, k), ⟨d, r⟩, c)
+        | _, _, _, _ => none
+      | _, _ => none
+    | _ => none)
+
+/-- `p.k.fk=d:res` → ((p, k, fk), delay, res) -/
+def parseFileTbl (s : String) : Option (List ((Nat × Nat × Nat) × Sup)) :=
+  if s == "-" then some [] else
+  allSome ((s.splitOn ",").map fun e =>
+    match e.splitOn "=" with
+    | [pk, v] =>
+      match pk.splitOn ".", v.splitOn ":" with
+      | [p, k, fk], [d, r] =>
+        let res : Option Res := match r with | "ok" => some .ok | "nf" => some .notFound | _ => none
+        match optNat p, optNat k, optNat fk, optNat d, res with
+        | some p, some k, some fk, some d, some r => some ((p, k, fk), ⟨d, r⟩)
+        | _, _, _, _, _ => none
+      | _, _ => none
+    | _ => none)
+
+def parseProvFlags (s : String) : Option (List Bool) :=
+  if s == "-" then some [] else
+  allSome (s.toList.map fun c =>
+    if c == 'u' || c == 'U' then some false else if c == 'c' then some true else none)
+
+def mkProvs (flags : List Bool) (st : List ((Nat × Nat) × Sup × Bool))
+    (ft : List ((Nat × Nat × Nat) × Sup)) : List Prov :=
+  (List.range flags.length).map fun p =>
+    { sym := fun k => match st.find? (fun e => e.1 == (p, k)) with
+        | some e => e.2.1 | none => ⟨0, .notFound⟩
+      cfi := fun k => match st.find? (fun e => e.1 == (p, k)) with
+        | some e => e.2.2 | none => false
+      file := fun k fk => match ft.find? (fun e => e.1 == (p, k, fk)) with
+        | some e => e.2 | none => ⟨0, .notFound⟩
+      cached := flags.getD p false }
+
+/-- every consulted table entry is present and every request names a module of the table -/
+def tablesOk (rc : RCfg) (st : List ((Nat × Nat) × Sup × Bool))
+    (ft : List ((Nat × Nat × Nat) × Sup)) : Bool :=
+  rc.progs.all fun prog => prog.all fun q =>
+    q.mod < rc.M &&
+    (List.range rc.P).all fun p =>
+      match q.kind with
+      | .file fk => ft.any fun e => e.1 == (p, rc.key q.mod, fk)
+      | _ => st.any fun e => e.1 == (p, rc.key q.mod)
+
+/-- a slot as (provider, key, file kind or none) -/
+def slotLabel (rc : RCfg) (s : Nat) : Nat × Nat × Option Nat :=
+  let x := s / 4
+  match s % 4 with
+  | 0 => (x / rc.M, x % rc.M, none)
+  | 1 => (x / 3 / rc.M, x / 3 % rc.M, some (x % 3))
+  | _ =>
+    match (rc.prog (x / rc.P % rc.T))[x / rc.P / rc.T]? with
+    | some ⟨.file fk, m⟩ => (x % rc.P, rc.key m, some fk)
+    | _ => (x % rc.P, 0, some 9)
+
+def labelStr (l : Nat × Nat × Option Nat) : String :=
+  match l with
+  | (p, k, none) => s!"{p}.{k}"
+  | (p, k, some fk) => s!"{p}.{k}.{fk}"
+
+def rEventStr (rc : RCfg) : Event → String
+  | .call s => let l := slotLabel rc s; (if l.2.2.isSome then "C" else "c") ++ labelStr l
+  | .ret s => let l := slotLabel rc s; (if l.2.2.isSome then "R" else "r") ++ labelStr l
+  | .seen t s r =>
+    let l := slotLabel rc s
+    match l.2.2 with
+    | none => s!"s{t}." ++ labelStr l ++ "=" ++ r.toStr
+    | some _ => s!"S{t}." ++ labelStr l ++ "=" ++ r.toStr
+
+def ROut.toStr : ROut → String
+  | .fillOk p => s!"F{p}" | .fillErr => "F-"
+  | .walkOk p => s!"W{p}" | .walkNone => "W-"
+  | .fileOk p => s!"P{p}" | .fileErr => "P-"
+
+def gbits (rc : RCfg) (f : Nat → Bool) : String :=
+  String.ofList ((List.range rc.T).map fun t => if f t then '1' else '0')
+
+def pendStr (rc : RCfg) (log : List Event) : String :=
+  joinWith "," ((List.range rc.P).map fun p => s!"{reqCount rc p log}/{procCount rc p log}") ++
+    (let m := multiPending rc log; s!"m{m.1}/{m.2}")
+
+def leafStr : Option Nat → String
+  | none => "-"
+  | some l => toString l
+
+/-- all statistics keys that can occur: the empty leaf and every leaf of the module table -/
+def allLeaves (rc : RCfg) : List (Option Nat) :=
+  let mx := rc.mods.foldl (fun a m => match m.codeFile.str.leaf with | some l => max a (l + 1) | none => a) 0
+  none :: (List.range mx).map some
+
+def statsStr (rc : RCfg) (get : Option Nat → Option Res) : String :=
+  joinWith "," ((allLeaves rc).filterMap fun l => (get l).map fun r => leafStr l ++ "=" ++ r.toStr)
+
+/-- the answers task `t` has received so far (without providers a request performs no lookup at all:
+    its answer arrives when the task first runs) -/
+def answers (rc : RCfg) (t : Nat) (s : GState) : List ROut :=
+  if rc.P = 0 && !gisFin s t then [] else outcomes rc t s.log
+
+def rPollEntry (rc : RCfg) (t : Nat) (before after : GState) : String :=
+  let evs := after.log.drop before.log.length
+  let outs := (answers rc t after).drop (answers rc t before).length
+  let statsDelta := String.join ((List.range rc.P).map fun p =>
+    let b := statsStr rc (statGet (statWrites rc p before.log))
+    let a := statsStr rc (statGet (statWrites rc p after.log))
+    if a == b then "" else s!"S{p}:{a}")
+  s!"{t}[" ++ joinWith "," (evs.map (rEventStr rc)) ++ "|" ++ joinWith "," (outs.map ROut.toStr) ++ "]" ++
+    pendStr rc after.log ++ statsDelta ++ "w" ++ gbits rc (fun u => (after.task u).woken) ++ "f" ++ gbits rc (gisFin after)
+
+def rSummary (rc : RCfg) (s : GState) : String :=
+  let keys := (List.range rc.M).filter fun k => rc.key k == k
+  let calls := (List.range rc.P).flatMap fun p => keys.filterMap fun k =>
+    let n := callCount (symSlot rc p k) s.log
+    if n == 0 then none else some s!"{p}.{k}x{n}"
+  let fcalls := (List.range rc.P).flatMap fun p => keys.flatMap fun k => (List.range 3).filterMap fun fk =>
+    let n := (s.log.filter fun e => match e with
+      | .call sl => sl % 4 != 0 && slotLabel rc sl == (p, k, some fk)
+      | _ => false).length
+    if n == 0 then none else some s!"{p}.{k}.{fk}x{n}"
+  let outs := (List.range rc.T).map fun t =>
+    s!"{t}:" ++ joinWith "," ((outcomes rc t s.log).map ROut.toStr)
+  let stats := (List.range rc.P).map fun p =>
+    s!"{p}:" ++ statsStr rc (statGet (statWrites rc p s.log))
+  s!"final fin={if gallFin (toICfg rc) s then 1 else 0} pend=" ++ pendStr rc s.log ++
+    " calls:" ++ joinWith "," calls ++ " fcalls:" ++ joinWith "," fcalls ++
+    " outs:" ++ joinWith ";" outs ++ " stats:" ++ joinWith ";" stats ++
+    " mstats:" ++ statsStr rc (multiStatGet rc s.log)
+
+def rTraceA (rc : RCfg) : List Nat → GState → List String → GState × List String
+  | [], s, acc => (s, acc.reverse)
+  | t :: ts, s, acc =>
+    let s' := gpoll (toICfg rc) t s
+    rTraceA rc ts s' (rPollEntry rc t s s' :: acc)
+
+def rTraceW (rc : RCfg) : List Nat → GState → List String → GState × List String
+  | [], s, acc => (s, acc.reverse)
+  | c :: cs, s, acc =>
+    if gallFin (toICfg rc) s then (s, acc.reverse) else
+    let R := grunnable (toICfg rc) s
+    match R[c % R.length]? with
+    | none => (s, ("stall" :: acc).reverse)
+    | some t =>
+      let s' := gpoll (toICfg rc) t s
+      rTraceW rc cs s' (rPollEntry rc t s s' :: acc)
+
+def buildRCfg (mods provs tasks sym file : String) : Option RCfg :=
+  match allSome ((mods.splitOn ";").map parseMod), parseProvFlags provs, parseReqs tasks,
+      parseSymTbl sym, parseFileTbl file with
+  | some mods, some flags, some progs, some st, some ft =>
+    let rc : RCfg := ⟨mods, mkProvs flags st ft, progs⟩
+    if tablesOk rc st ft then some rc else none
+  | _, _, _, _, _ => none
+
+def handleReq (args : List String) : String :=
+  match args with
+  | [x, mods, provs, tasks, sym, file, sched] =>
+    match x.dropPrefix? "x:", mods.dropPrefix? "mods:", provs.dropPrefix? "provs:",
+        tasks.dropPrefix? "tasks:", sym.dropPrefix? "sym:", file.dropPrefix? "file:",
+        sched.dropPrefix? "sched:" with
+    | some x, some mods, some provs, some tasks, some sym, some file, some sched =>
+      match buildRCfg mods.toString provs.toString tasks.toString sym.toString file.toString,
+          parseNats sched.toString "," with
+      | some rc, some sch =>
+        let ic := toICfg rc
+        let s0 := ginit ic
+        let fuel := gfuel ic
+        match x.toString with
+        | "a" =>
+          let (s, tr) := rTraceA rc sch s0 []
+          joinWith ";" tr ++ " " ++ rSummary rc (gfinish ic fuel s)
+        | "w" =>
+          let (s, tr) := rTraceW rc sch s0 []
+          joinWith ";" tr ++ " " ++ rSummary rc (gfinishW ic fuel s)
+        | "j" => if sch ≠ [] then "bad-op" else " " ++ rSummary rc (gfinish ic fuel s0)
+        | "m" => if sch ≠ [] then "bad-op" else " " ++ rSummary rc (gfinish ic fuel s0)
+        | _ => "bad-op"
+      | _, _ => "bad-op"
+    | _, _, _, _, _, _, _ => "bad-op"
+  | _ => "bad-op"
+
+/-! ### `HttpSymbolSupplier` (one provider whose supplier caches files)
+  `once http x:<j|m> mods:<..> urls:<n> tasks:<req,..;..> srv:<k.<fk|s>=<u|n>:<0|1>,..>`
+    srv   per module key and file kind (`s` = the symbol file fetched by `locate_symbols`): the index
+          of the first server that answers 200 (`n`: none does) and whether the file is already in
+          the local cache directory
+    `fill` requests go through a `Symbolizer` around the supplier, `g` requests straight to
+    `locate_file_internal`. The model is the request-level machine with ONE provider, `cached`;
+    a supplier call of a slot performs the GET sequence `gets` — so "at most one call per slot" is
+    "at most one GET sequence per (module key, kind)".
+  answer: ` final fin= pend= outs: gets:<k.fk>:<u>=<status>x<n>,..;..` (n = number of supplier calls
+  of that slot; slots whose call performs no GET are not listed)
+-/
+
+/-- (served-at, local) per (key, kind 0..2 or 3 = symbols) -/
+def parseSrv (s : String) : Option (List ((Nat × Nat) × Option Nat × Bool)) :=
+  if s == "-" then some [] else
+  allSome ((s.splitOn ",").map fun e =>
+    match e.splitOn "=" with
+    | [kk, v] =>
+      match kk.splitOn ".", v.splitOn ":" with
+      | [k, fk], [u, l] =>
+        let fk := if fk == "s" then some 3 else (optNat fk).bind fun n => if n < 3 then some n else none
+        let l := if l == "1" then some true else if l == "0" then some false else none
+        match optNat k, fk, parseOptNat u, l with
+        | some k, some fk, some u, some l => some ((k, fk), u, l)
+        | _, _, _, _ => none
+      | _, _ => none
+    | _ => none)
+
+/-- the GET sequence of one supplier call: nothing if the file is found locally, otherwise the
+    servers in order up to the first 200 -/
+def httpGets (nurls : Nat) (served : Option Nat) (loc : Bool) : List (Nat × Nat) :=
+  if loc then [] else
+  match served with
+  | some u => if u < nurls then (List.range u).map (·, 404) ++ [(u, 200)] else (List.range nurls).map (·, 404)
+  | none => (List.range nurls).map (·, 404)
+
+def httpRes (nurls : Nat) (served : Option Nat) (loc : Bool) : Res :=
+  if loc then .ok else
+  match served with
+  | some u => if u < nurls then .ok else .notFound
+  | none => .notFound
+
+def handleHttp (args : List String) : String :=
+  match args with
+  | [x, mods, urls, tasks, srv] =>
+    match x.dropPrefix? "x:", mods.dropPrefix? "mods:", urls.dropPrefix? "urls:",
+        tasks.dropPrefix? "tasks:", srv.dropPrefix? "srv:" with
+    | some x, some mods, some urls, some tasks, some srv =>
+      match allSome ((mods.toString.splitOn ";").map parseMod), optNat urls.toString,
+          parseReqs tasks.toString, parseSrv srv.toString with
+      | some mods, some nurls, some progs, some tbl =>
+        if !(x.toString == "j" || x.toString == "m") then "bad-op" else
+        let look := fun (k fk : Nat) => (tbl.find? fun e => e.1 == (k, fk)).map (·.2)
+        let prov : Prov :=
+          { sym := fun k => match look k 3 with
+              | some (u, l) => ⟨0, httpRes nurls u l⟩ | none => ⟨0, .notFound⟩
+            cfi := fun _ => true
+            file := fun k fk => match look k fk with
+              | some (u, l) => ⟨0, httpRes nurls u l⟩ | none => ⟨0, .notFound⟩
+            cached := true }
+        let rc : RCfg := ⟨mods, [prov], progs⟩
+        let okTbl := progs.all fun prog => prog.all fun q =>
+          q.mod < rc.M && (match q.kind with
+            | .file fk => (look (rc.key q.mod) fk).isSome
+            | .fill => (look (rc.key q.mod) 3).isSome
+            | .walk => false)
+        if !okTbl then "bad-op" else
+        let ic := toICfg rc
+        let s := gfinish ic (gfuel ic) (ginit ic)
+        let keys := (List.range rc.M).filter fun k => rc.key k == k
+        let gets := keys.flatMap fun k => (List.range 4).filterMap fun fk =>
+          let n := if fk == 3 then callCount (symSlot rc 0 k) s.log else callCount (fileSlot rc 0 k fk) s.log
+          match look k fk with
+          | some (u, l) =>
+            if n == 0 then none else
+            let gs := httpGets nurls u l
+            if gs.isEmpty then none else
+            some (s!"{k}.{if fk == 3 then "s" else toString fk}:" ++
+              joinWith "," (gs.map fun g => s!"{g.1}={g.2}x{n}"))
+          | none => none
+        let outs := (List.range rc.T).map fun t =>
+          s!"{t}:" ++ joinWith "," ((outcomes rc t s.log).map ROut.toStr)
+        s!" final fin={if gallFin ic s then 1 else 0} pend={reqCount rc 0 s.log}/{procCount rc 0 s.log}" ++
+          " outs:" ++ joinWith ";" outs ++ " gets:" ++ joinWith ";" gets
+      | _, _, _, _ => "bad-op"
+    | _, _, _, _, _ => "bad-op"
+  | _ => "bad-op"
+
+def handle (_engine : String) (args : List String) : String :=
+  match args with
+  | "run" :: _ => handleRun args
+  | "req" :: rest => handleReq rest
+  | "http" :: rest => handleHttp rest
   | _ => "bad-op"
 
 end MdModel.Once
